@@ -591,6 +591,7 @@ def run_rerun_case(item):
             "cls": res["j1"]["cls"], "nrej": len(res["j1"]["rejected"]), "diffs": diffs,
             "max_running": max(r["max_running"] or 0 for r in res.values()),
             "profile": pf.merge(r.get("profile") for n, r in res.items() if n != "j1"),
+            "profiles": {n: r.get("profile") or {} for n, r in res.items()},
             "project": dict(project.to_json(), edits=edits) if diffs else None}
 
 
@@ -747,6 +748,44 @@ def run_detached_input_scenario() -> dict:
                      "rejected": [list(x) for x in r.rejected],
                      "graph": e3.canon_graph(r.graph, digests=True) if r.graph else None,
                      "runs_of_worker": sum(1 for c in r.commands if c["label"] == "./use.py"),
+                     "gate_releases": [t[0] for t in r.schedule_trace]}
+    return out
+
+
+def run_detached_input_completion_scenario() -> dict:
+    """Directed second build (finding C02:noncommute:detached-input-at-completion).  ./p.py defines the
+    nested script ./n.py, which defines the producer `c` of o.txt; the worker ./u.py amends o.txt.  All
+    three scripts change trivially.  -j2, order: ./p.py defines ./n.py again (o.txt attached again), the
+    worker's amend is accepted, ./p.py ends, ./n.py is dispatched (its reset_for_rerun detaches `c` and
+    o.txt), the worker COMPLETES, then ./n.py defines `c` again.  Step.inp_paths() leaves detached sources
+    out, so the step hash stored for the worker is computed without o.txt: same files, same edges, another
+    inp_digest than under -j1."""
+    plan = [{"op": "static", "paths": ["n.py", "p.py", "u.py"]}, {"op": "plan", "label": "./p.py"},
+            {"op": "run", "label": "./u.py", "out": ["w.txt"]}]
+    pp = [{"op": "run", "label": "./n.py"}]
+    nn = [{"op": "run", "label": "c", "shell": True, "out": ["o.txt"]}]
+    uu = [{"op": "amend", "inp": ["o.txt"]}, {"op": "read", "paths": ["o.txt"]}, {"op": "write", "path": "w.txt"}]
+    p = e3.Project(sources={}, program={"scripts": {"plan.py": plan, "p.py": pp, "n.py": nn, "u.py": uu},
+                                        "commands": {"c": [{"op": "auto"}]}})
+    edit = [{"op": "script", "path": f, "actions": [{"op": "print", "text": "second version"}] + a}
+            for f, a in (("p.py", pp), ("n.py", nn), ("u.py", uu))]
+    both = dict(policy="fifo", points=["start", "end"])
+    out = {"project": p.to_json(), "edit": edit}
+    for name, kw in (("j1", dict(njob=1)),
+                     ("j2-completes-while-detached", dict(njob=2, schedule=dict(both, order=[
+                         "start:./p.py", "start:./u.py", "end:./p.py", "end:./u.py", "start:./n.py", "end:./n.py"]))),
+                     ("j2-completes-after", dict(njob=2, schedule=dict(both, order=[
+                         "start:./p.py", "start:./u.py", "end:./p.py", "start:./n.py", "end:./n.py", "end:./u.py"])))):
+        rs = e3.run_history(p, [{"edits": edit, "build": kw}])
+        r = rs[-1]
+        prof = pf.profile(r, p.program)
+        g = e3.parse_graph(e3.canon_graph(r.graph, digests=True)) if r.graph else {}
+        out[name] = {"first": e3.rc_class(rs[0].returncode), "cls": e3.rc_class(r.returncode),
+                     "graph_without_digests": e3.canon_graph(r.graph, digests=False) if r.graph else None,
+                     "worker": (g.get("step:./u.py") or {}).get("props"), "files": dict(r.files),
+                     "completed_while_input_detached": sorted(k.split(":", 1)[1] for k in prof
+                                                              if k.startswith("detached-input-completion:")),
+                     "commands": [[c["label"], c["start"], c["stop"], c["rc"]] for c in r.commands],
                      "gate_releases": [t[0] for t in r.schedule_trace]}
     return out
 
